@@ -124,6 +124,8 @@ def decode_number(value, float_factory):  # type(string) -> (int)
 
     if ('.' in value) or (value.lower() in ["inf", "+inf", "-inf"]):
         return float_factory(value)
+    if 'e' in value.lower() and value.lower().lstrip('+-')[:2] not in ("0x", "0b"):
+        return float_factory(value)  # 1E-3, 25e0: decimal exponent notation without a dot
 
     base = 10
     if len(value) > 1 and value[1] == 'b':  # bin coded
